@@ -1707,8 +1707,7 @@ def c16_exit(ctx):
     ctx.check(bool(ab), ab[0] if ab else f, "__exit__ aborts a generator run that is still active", "__exit__ never aborts an active generator run",
               key=None if ab else PAR + "::Parallel.__exit__::_abort")
     for c in ab:
-        conds = g.conditions_at(g.nodes_of(c))
-        ctx.check(len(conds) == 1 and unparse(conds[0][1]) == "self.return_generator and self._calling" and conds[0][2], c, "abort iff return_generator and a call is active")
+        ctx.check(g.fact_set(g.nodes_of(c)) == {("self.return_generator", True), ("self._calling", True)}, c, "abort iff return_generator and a call is active")
         ctx.check(tr and g.every_path_from(g.nodes_of(c), g.nodes_of_all(tr)), c, "abort precedes terminate")
     mb = [a for a in assigns_to(f, "self._managed_backend") if is_const(a.value, False)]
     ctx.check(bool(mb) and tr and g.every_path_to(g.nodes_of_all(tr), g.nodes_of_all(mb)), mb[0] if mb else f, "_managed_backend is cleared before terminating (so the backend is really shut down)")
